@@ -28,7 +28,7 @@ Definition bad : list N := [77777].
 Definition is_diag (k : N) : bool := (k =? 140).
 
 Definition is_monitor (k : N) : bool :=
-  (k =? 1) || (k =? 2) || (k =? 612) || ((150 <=? k) && (k <? 170)) || (k =? 1950) || (k =? 1951) || mmio_is_monitor k || pci_is_monitor k || blk_is_monitor k || console_is_monitor k || config_is_monitor k || net_is_monitor k || connmgr_is_monitor k || vsock_is_monitor k || TeardownIO.teardown_is_monitor k || init_is_monitor k || gpu_is_monitor k || misc_is_monitor k || pcit_is_monitor k || sound_is_monitor k.
+  (k =? 1) || (k =? 2) || (k =? 612) || (k =? 613) || ((150 <=? k) && (k <? 170)) || (k =? 1950) || (k =? 1951) || mmio_is_monitor k || pci_is_monitor k || blk_is_monitor k || console_is_monitor k || config_is_monitor k || net_is_monitor k || connmgr_is_monitor k || vsock_is_monitor k || TeardownIO.teardown_is_monitor k || init_is_monitor k || gpu_is_monitor k || misc_is_monitor k || pcit_is_monitor k || sound_is_monitor k.
 
 Definition dir_reads (d : N) : bool := (d =? 0) || (d =? 2).
 Definition dir_writes (d : N) : bool := (d =? 1) || (d =? 2).
@@ -48,6 +48,14 @@ Definition step (st : mstate) (k : N) (ins : list N) : mstate * list N :=
          | [legacy; n; desc; drv; dev; a1; p1; a2; p2; d1; d2] =>
              [b2n (regions_ok_b (n2b legacy) n desc drv dev a1 p1 a2 p2
                    && dir_reads d1 && dir_writes d2)]
+         | _ => bad end)
+  else
+  (* 613 MONITOR (C06): [transport forbids; result class; allocations; registrations; registered size; requested size] *)
+  if k =? 613 then
+    (st, match ins with
+         | [forbid; cls; na; ns; rsz; n] =>
+             [b2n (if forbid =? 1 then (cls =? 1) && (na =? 0) && (ns =? 0)
+                   else implb (cls =? 0) ((ns =? 1) && (rsz =? n)))]
          | _ => bad end)
   else
   (* ---- C10: MMIO transport (kinds 1000..1099) ---- *)
